@@ -13,7 +13,10 @@ prop("C17",
                    dict(flavour="rel", mode="keywords", cases=1000),
                    # every line truncation of the 12 corpus seeds through every entry point (1064 points; the rest are no-ops)
                    dict(flavour="asan", mode="truncate", cases=1100),
-                   dict(flavour="rel", mode="truncate", cases=1100)],
+                   dict(flavour="rel", mode="truncate", cases=1100),
+                   # deterministic replay of the committed corpus of the coverage-guided campaigns (fuzz/c17_corpus) through the judge
+                   dict(flavour="asan", mode="corpus", pre="corpus_dir", cases=1000000),
+                   dict(flavour="rel", mode="corpus", pre="corpus_dir", cases=1000000)],
          "thorough": [dict(flavour="asan", mode="roundtrip", cases=57 * 20),
                       dict(flavour="rel", mode="roundtrip", cases=57 * 20),
                       dict(flavour="asan", mode="keywords", cases=15000),
@@ -49,16 +52,22 @@ prop("C17",
                         # texts ending with the continuation character and no end-of-line (KeyParser read_line looped forever)
                         "mutations_continuation_at_eof": 500,
                         # image headers with 'image scaling factor[f]' given per plane for the first (and some later) data sets
-                        "equivalent_headers_scaling_factor_per_plane": 120},
+                        "equivalent_headers_scaling_factor_per_plane": 120,
+                        # committed corpus of the coverage-guided campaigns, judged in both builds
+                        "fuzz_inputs_judged": 2000, "fuzz_committed_corpus_files": 1000},
               "thorough": {"mutated_inputs": 100000, "inputs_accepted_and_consistent": 45000, "data_length_checks": 30000,
                            "registered_classes_enumerated": 114, "roundtrip_fixed_points_checked": 1100,
                            "keyword_lines_respelled_and_matched": 100000, "vectorised_lines_stored_at_index": 40000,
                            "alias_lines_resolved": 7000, "bad_index_lines": 5000, "equivalent_headers_same_result": 11000,
-                           "line_truncations_run": 1000, "byte_truncations_run": 36000}},
+                           "line_truncations_run": 1000, "byte_truncations_run": 36000,
+                           "fuzz_libfuzzer_executions": 100000, "fuzz_inputs_judged": 50, "fuzz_edge_coverage_reached": 20000}},
      exhaustive={"quick": "truncation after every line of each of the 12 corpus seeds (Interfile image/dynamic image/PET, SPECT and Siemens "
                           "projection data headers, multi-header, KeyParser text) through every entry point of its family, in both builds",
                  "thorough": "as quick, plus truncation after every byte of the same seeds in the release build (every 5th byte under the sanitizers)"},
-     rule=("four kinds of case.  roundtrip: case i = registered class (i mod 57) of the 22 registries, variant i div 57: the object "
+     rule=("five kinds of case.  corpus: case i = i-th file (sorted by name) of a directory of inputs produced by libFuzzer campaigns on "
+           "the same entry points (first line '<seed name> <entry variant>', then the text; the committed fuzz/c17_corpus in the quick "
+           "tier, everything a fresh campaign produced - corpus additions and crash/oom/timeout artifacts - in the thorough tier), judged "
+           "like a mutated input.  roundtrip: case i = registered class (i mod 57) of the 22 registries, variant i div 57: the object "
            "parsed from nothing but its start keyword (variant 0) or from its own text with ~1/3 of the numeric values changed "
            "and keywords respelled (variants >= 1) prints parameter_info(); that text is parsed again and must print the same "
            "text (numeric tokens may differ by 1e-5 relative); classes whose default values are rejected or that need external "
@@ -83,7 +92,9 @@ prop("C17",
            "report, failed assert or signal, never a single allocation > 1 GiB (operator new shim), in rel never more than "
            "120 s CPU.  non-trivial = the parse of the generated input was executed to a verdict; distinct = distinct "
            "descriptor (input hash)"),
-     technique=("runtime monitoring + mutation-based fuzzing under sanitizers: grammar-aware, seeded, count-bounded mutation of "
+     technique=("runtime monitoring + mutation-based and coverage-guided fuzzing under sanitizers (libFuzzer on the ASan/UBSan build as "
+                "input generator, committed corpus replayed in the quick tier, fresh campaign in the thorough tier; every input judged "
+                "by the same isolated-child oracle): grammar-aware, seeded, count-bounded mutation of "
                 "headers/parameter texts the library wrote itself, every parse isolated in a forked child under ASan/UBSan/asserts "
                 "with an allocation-size monitor, replayed in the release build; inverse relation print->parse->print over all "
                 "registries; executable reference model for keyword normalisation, aliases and vectorised indices"),
@@ -93,14 +104,16 @@ prop("C17",
                  "through the public readers, each in its own process, with ASan/UBSan/asserts, a > 1 GiB single-allocation "
                  "monitor and data-length consistency checks on whatever is accepted (all bins of accepted projection data are "
                  "read); documented-equivalent respellings, aliases and reordered vectorised keys must reproduce the seed's "
-                 "object; a KeyParser with every kind of key is compared line by line with a reference model"),
+                 "object; a KeyParser with every kind of key is compared line by line with a reference model; the ~1000 inputs that "
+                 "coverage-guided libFuzzer campaigns found (fuzz/c17_corpus, ~40000 edges of the library) are replayed through the same "
+                 "judge in both builds (quick), and the thorough tier runs a fresh 400000-execution campaign and judges everything new"),
      level_note=("trusted: the ~60-line reference normaliser/line splitter and the reference model of the test parser in "
                  "harness/c17_parsing.cxx, clang-14 sanitizer runtimes.  Not a violation by design of the check: UBSan reports "
                  "that are purely arithmetic (signed overflow, float->int out of range) on absurd header values are counted "
                  "(children_stopped_by_arithmetic_overflow_report) but not reported - the statement lists out-of-bounds access, "
                  "unbounded allocation and size mismatch; exceeding the 20 s CPU budget in the sanitizer build is counted, the "
-                 "release build judges termination.  Coverage-guided libFuzzer stage not included (count-bounded campaign "
-                 "only).  20 of 57 registered classes cannot be built without external data (9 more get a few hand-written values) and are only "
+                 "release build judges termination.  libFuzzer only generates inputs (fork mode, crashes ignored); no verdict is taken "
+                 "from its own exit status.  20 of 57 registered classes cannot be built without external data (9 more get a few hand-written values) and are only "
                  "exercised through the mutation campaign up to their rejection"),
      assumptions=["an accepted object is judged by the consistency checks listed in `rule`; values other than sizes are not compared "
                   "with the header (faithfulness of values is C02/C10)",
